@@ -441,6 +441,31 @@ def _load_extended():
 
 _load_extended()
 
+# openers, construct parts and unit headers added with the extended catalogue (append-only; the F77/F90
+# configurations keep MaxVar = 4 and never reach them)
+OPEN["if"] += [V("if ((x > 0)) then"), V("if (a(i) > f((x)) .or. s == 'a) then') then")]
+OPEN["do"] += [V("do i = 1, n + 1, k * 2"), V("do i = f(1), g(2, 3)"), V("do while (.not. done)"), V("do x = 1.0, 2.0, 0.5", std=99)]   # real DO variable: not supported by fparser2
+OPEN["dol"] += [V("do {L} i = 1, n, 2"), V("do {L} j = n, 1, -1")]
+OPEN["doconc"] += [V("do concurrent (i = 1:n:2)", std=8), V("do concurrent (i = 1:n, a(i) > 0)", std=8)]
+OPEN["selcase"] += [V("select case (i + 1)"), V("select case (flag)"), V("select case (trim(s))")]
+OPEN["seltype"] += [V("select type (q => obj%poly)")]
+OPEN["where"] += [V("where (a(:) > 0.0 .and. b(:, 1) < f(2))")]
+OPEN["forall"] += [V("forall (i = 1:n:2)"), V("forall (i = 1:n, j = 1:m:2)")]
+OPEN["assoc"] += [V("associate (q => a(1:n), r => f(x) + 1)"), V("associate (q => 'a,b')")]
+OPEN["type"] += [V("type, private :: {N}", proc=False), V("type, abstract, extends(t2) :: {N}"), V("type, bind(c), public :: {N}", proc=False)]
+OPEN["iface"] += [V("interface write(unformatted)"), V("interface read(unformatted)"), V("interface write(formatted)"),
+                  V("interface operator(.not.)"), V("interface operator(==)"), V("interface operator(//)")]
+IFACE_SPEC += ["write(unformatted)", "read(unformatted)", "write(formatted)", "operator(.not.)", "operator(==)", "operator(//)"]
+MIDS["elif"] += [V("else if (a(i) > 0 .and. s == 'then') then")]
+MIDS["case"] += [V("case (-1)"), V("case (1, 3:5, 7:)"), V("case ('a')"), V("case (.true.)")]
+MIDS["typeis"] += [V("type is (real)"), V("class is (t2)"), V("type is (complex(kind=8))"), V("type is (character(*))")]
+MIDS["elsewhere"] += [V("elsewhere (a > f(1))")]
+UNIT["sub"] += [V("subroutine {N}(*)"), V("subroutine {N}(arg1, arg2) bind(c)"), V("recursive pure subroutine {N}(arg1, arg2)")]
+UNIT["fun"] += [V("recursive integer function {N}(arg1) result(res)"), V("integer pure function {N}(arg1)"), V("double precision function {N}(arg1)"),
+                V("elemental function {N}(arg1)"), V("character*8 function {N}(arg1)"), V("class(t1) function {N}(arg1)"),
+                V("integer(kind=4) recursive function {N}()")]
+MODPROC += [V("module procedure :: p5", std=8), V("procedure p6, p7"), V("procedure :: p8, p9", std=8)]
+
 
 def table(kind):
     return {"s": SIMPLE, "decl": DECL, "use": USE, "implnone": IMPLICIT, "format": FORMAT, "comp": COMP,
